@@ -641,6 +641,9 @@ func (g *goGen) buildTest(fi *FuncInfo, fc *FuncContract, su *Unit, decls []stri
 	}
 	b.WriteString(")\n\nvar _ = fmt.Sprint\n")
 	b.WriteString(goHelpers)
+	if g.needValEq {
+		b.WriteString(goValEqHelper)
+	}
 	for _, d := range g.out {
 		b.WriteString(d + "\n")
 	}
@@ -792,6 +795,10 @@ func SampleReplay(p *Program, o CheckOpts, fc *FuncContract) (run, passed, skipp
 		failed, output := RunOverlayTest(o.Repo, o.Verif, pkgDir, tf, "TestGocvReplay", "gocv_sample")
 		run++
 		switch {
+		case strings.Contains(output, "GOCV-REPLAY: PANIC") && fc.Flags["nosafety"]:
+			// the unit claims no safety obligations (nil/bounds preconditions are not part of its contract):
+			// a sampled input that panics tells nothing about the claimed postconditions; not counted
+			run--
 		case strings.Contains(output, "GOCV-REPLAY: VIOLATED") || strings.Contains(output, "GOCV-REPLAY: PANIC"):
 			failures = append(failures, fmt.Sprintf("%s with %s: %s", fc.Key(), strings.Join(decls, ";"), trimLong(output, 300)))
 		case strings.Contains(output, "GOCV-REPLAY: PRECONDITION"):
